@@ -3,7 +3,7 @@
 use super::{CheckpointMetadata, WalManager, WalRecord};
 use grafeo_common::utils::error::{Error, Result, StorageError};
 use std::fs::File;
-use std::io::{BufReader, Read};
+use std::io::{BufReader, Read, Seek};
 use std::path::Path;
 
 /// Name of the checkpoint metadata file.
@@ -251,6 +251,16 @@ impl WalRecovery {
             Err(e) => return Err(e.into()),
         }
         let len = u32::from_le_bytes(len_buf) as usize;
+
+        // The length prefix is untrusted: a torn or corrupt prefix must not make us
+        // allocate (up to 4 GiB) for bytes the file does not contain.
+        let file_len = reader.get_ref().metadata()?.len();
+        let remaining = file_len.saturating_sub(reader.stream_position()?);
+        if len as u64 + 4 > remaining {
+            return Err(Error::Storage(StorageError::Corruption(
+                "WAL record truncated".to_string(),
+            )));
+        }
 
         // Read data
         let mut data = vec![0u8; len];
